@@ -48,7 +48,16 @@ g83 = "### 8.3a Per-property status as built — FINAL notes (assembled from des
       "\n\n".join(open(n).read().strip() for n in notes)
 if "<!-- GEN:83 -->" not in s:
     s = s.replace("<!-- GEN:84 -->", "<!-- GEN:83 -->\n<!-- /GEN:83 -->\n\n<!-- GEN:84 -->")
-for tag, body in (("83", g83), ("84", g84), ("85", g85)):
+import subprocess as _sp
+nthm = sum(len(re.findall(r"^(?:Theorem|Lemma|Corollary)\s", open(f).read(), flags=re.M)) for f in glob.glob(os.path.join(V, "coq/Properties/C*.v")))
+nlines = sum(len(open(f).read().splitlines()) for f in glob.glob(os.path.join(V, "coq/**/*.v"), recursive=True) if "/scratch/" not in f)
+nhooks = sum(1 for l in open(os.path.join(V, "MANIFEST.hooks")) if l.strip() and not l.startswith("#"))
+g86 = ("**Totals (generated):** %d property theorems in coq/Properties (all `exact`-closed, each followed by `Print Assumptions`), "
+       "%d lines of Coq, %d `fix:` commits and %d hook entries in /repo, %d open known findings, %d seeded changes.\n\n" % (nthm, nlines, len(fixed), nhooks, len(opn), len(rows))) \
+      + open(os.path.join(V, "design.d", "_trusted.md")).read().strip()
+if "<!-- GEN:86 -->" not in s:
+    s = s.rstrip() + "\n\n<!-- GEN:86 -->\n<!-- /GEN:86 -->\n"
+for tag, body in (("83", g83), ("84", g84), ("85", g85), ("86", g86)):
     a, b = "<!-- GEN:%s -->" % tag, "<!-- /GEN:%s -->" % tag
     block = a + "\n" + body + "\n" + b
     if a in s:
